@@ -168,7 +168,7 @@ def judge_apply(res, orig, stub, result, overwrite, confine, tmod, keyprefix="")
         return bad, info
     oa, na = AE.annotations_of(orig), AE.annotations_of(result)
     se_stub = StubEval(stub, tmod)
-    se_res = StubEval(result, tmod)
+    se_res = StubEval(result, tmod, type_checking=True)
     # confined imports are still names a type checker sees: make them available to the evaluator
     for node in ast.walk(ast.parse(result)):
         if isinstance(node, ast.If) and ast.unparse(node.test) in ("TYPE_CHECKING", "typing.TYPE_CHECKING"):
@@ -209,12 +209,20 @@ def judge_apply(res, orig, stub, result, overwrite, confine, tmod, keyprefix="")
             if want is None or got is None:
                 res.count("unverifiable_annotation_pairs")
                 continue
+            if want != got and confine and "Unknown(unresolved)" in RT.show(got) and "Unknown(unresolved)" not in RT.show(want):
+                # with confinement every name an annotation uses - also inside a generated TypedDict class body - is imported at module
+                # level or under TYPE_CHECKING
+                why = "; ".join(sorted({f"{lc}: {dt[:100]}" for kd, dt, lc in se_res.events if kd == "name-not-provided-in-typeddict-class-body"}))
+                bad.append(("annotation-name-imported-nowhere", f"{q}({pos}): {got_src!r} = {RT.show(got)}: {why}"))
+                continue
             if want != got:
-                bad.append(("applied-annotation-differs", f"{q}({pos}): stub {ast.unparse(node)!r} = {RT.show(want)}, result {got_src!r} = {RT.show(got)}"))
+                why = "; ".join(sorted({f"{kd}: {dt[:100]}" for kd, dt, _l in se_res.events[before:]}
+                                       | {f"{kd}: {lc}: {dt[:100]}" for kd, dt, lc in se_res.events if kd == "name-not-provided-in-typeddict-class-body" and "Unknown(unresolved)" in RT.show(got)}))
+                bad.append(("applied-annotation-differs", f"{q}({pos}): stub {ast.unparse(node)!r} = {RT.show(want)}, result {got_src!r} = {RT.show(got)}" + (f" [{why}]" if why else "")))
     return bad, info
 
 
-def reclassify(bad, orig, overwrite, confine):
+def reclassify(bad, orig, overwrite, confine, stub=None):
     """Map discrepancies to the narrow mechanism they are explained by (libcst-rooted findings)."""
     import re
 
@@ -232,6 +240,22 @@ def reclassify(bad, orig, overwrite, confine):
     classes = {n.name for n in ast.walk(ot) if isinstance(n, ast.ClassDef)}
     nested_classes = {sub.name for n in ast.walk(ot) if isinstance(n, ast.ClassDef) for sub in n.body if isinstance(sub, ast.ClassDef)}
     plain_typing = any(m is None and n == "typing" for m, n, a, lv, b, l in imps)
+    # modules the source imports with a plain `import M` (any scope): libcst then spells signature annotations `M.N` and adds no
+    # `from M import N` - but the generated TypedDict class body is copied verbatim and still says `N`
+    plain_mods = {n for m, n, a, lv, b, l in imps if m is None}
+    stub_from = {}
+    if stub:
+        try:
+            for node in ast.parse(stub).body:
+                if isinstance(node, ast.ImportFrom) and node.module:
+                    for al in node.names:
+                        stub_from[al.asname or al.name] = node.module
+        except SyntaxError:
+            pass
+
+    def body_copied_verbatim(names):
+        return bool(names) and all(stub_from.get(n) in plain_mods for n in names)
+
     out = []
     for key, text in bad:
         mm = re.search(r"name '(\w+)' is not defined", text)
@@ -244,6 +268,11 @@ def reclassify(bad, orig, overwrite, confine):
         mm = re.search(r"name '(\w+)' is not defined", text)
         if key == "annotation-name-imported-nowhere" and mm and mm.group(1) in local_only:
             key = "annotation-relies-on-function-local-import"
+        allnames = set(re.findall(r"name '(\w+)' is not defined", text))
+        if key == "annotation-name-imported-nowhere" and allnames and all(n in local_only or stub_from.get(n, "").split(".")[0] in local_only for n in allnames):
+            key = "annotation-relies-on-function-local-import"  # the class body names N; the source has `import M` only inside functions
+        if key == "annotation-name-imported-nowhere" and allnames and plain_typing and all(stub_from.get(n) == "typing" for n in allnames):
+            key = "typeddict-class-body-name-unresolved-after-apply"
         mm = re.search(r"name '(\w+)' is not defined", text)
         if key == "annotation-name-imported-nowhere" and mm and mm.group(1) in nested_classes:
             key = "nested-class-annotation-imported-as-module"  # `from Canvas import Layer` sits under TYPE_CHECKING, where it resolves to nothing
@@ -254,6 +283,11 @@ def reclassify(bad, orig, overwrite, confine):
         if key == "new-import-not-confined" and mm and mm.group(1) in classes:
             key = "nested-class-annotation-imported-as-module"
         if key == "applied-annotation-differs" and "Unknown(unresolved)" in text and "TD{" in text and plain_typing:
+            key = "typeddict-class-body-name-unresolved-after-apply"
+        names = set(re.findall(r"name '(\w+)' is not defined", text))
+        if key == "applied-annotation-differs" and "Unknown(unresolved)" in text and "TD{" in text and body_copied_verbatim(names):
+            key = "typeddict-class-body-name-unresolved-after-apply"
+        if key.startswith("result-does-not-run:NameError") and body_copied_verbatim(names) and "(TypedDict" in (stub or ""):
             key = "typeddict-class-body-name-unresolved-after-apply"
         if key == "second-application-changes-text" and confine and all(
                 re.match(r"^[+-]\s*(from \S+ import .*|import .*|if TYPE_CHECKING:|)$", x.strip()) for x in text.split(";")):
@@ -338,7 +372,7 @@ def work(p):
                     bad.append(("second-application-changes-text", f"{'; '.join(dl[:12])[:600]}"))
             except Exception as e:
                 bad.append(("second-application-fails", str(e)[:200]))
-            bad = reclassify(bad, src["source"], overwrite, confine)
+            bad = reclassify(bad, src["source"], overwrite, confine, stub)
             res.shape(json.dumps([src["style"], sorted(src["features"])[:6], overwrite, k, confine]))
             c16_keys = ("future-import-not-first", "new-import-not-confined", "runtime-import-confined", "source-import-", "result-does-not-run",
                         "result-behaves-differently", "result-does-not-parse", "apply-fails", "nested-class-annotation-imported-as-module",
